@@ -52,6 +52,7 @@ def handle (l : Line) : IO Unit := do
       let ref := toTables c.cfg b
       let same := scheds.all fun s => decide (toTablesSched c.cfg s b = ref)
       IO.println s!"obs {id} sched same={if same then 1 else 0}"
+      IO.println (reswLine id c)
       IO.println s!"spec {id} same=1 race=0 perm=1 hist=1 incr=1 bin=ok"
   | _ => pure ()
 
